@@ -293,6 +293,9 @@ def pre_para(ctx, rule="R10.5"):
 
 
 def run(ctx):
+    from .C13 import single_conversion
+
+    single_conversion(ctx, rule="R10.6")
     pack_unpack(ctx)
     bound_sources(ctx)
     closure_vs_post(ctx)
